@@ -94,4 +94,4 @@ package broadcast
 //@   ensures passerr: result != nil && result != context.Canceled && cb != nil && ctx != nil ==> calls(cb) > old(calls(cb)) && result == lastret(cb, 1)
 //@   ensures canceled: result == context.Canceled ==> cancelled(ctx) || (calls(cb) > old(calls(cb)) && lastret(cb, 1) == context.Canceled)
 //@   loop 1 invariant calls: calls(cb) >= old(calls(cb))
-//@   assert select 1: waitCh != nil && issuedBy(waitCh) == c && gettime(waitCh) == calltime(cb) && !lastret(cb, 0) && lastret(cb, 1) == nil
+//@   assert select 1: selects(waitCh) && selects(done(ctx)) && waitCh != nil && issuedBy(waitCh) == c && gettime(waitCh) == calltime(cb) && !lastret(cb, 0) && lastret(cb, 1) == nil
